@@ -497,12 +497,31 @@ def gen_handlers():
     t = _try_containing(main, '_submit', 'tasks.SubmissionTask._main')
     if t is None:
         raise ExtractError('tasks.SubmissionTask._main: no try statement around _submit')
+    t_sub = t
     out.append('/-- `SubmissionTask._main`: (class, records, re-raises, waits for the submitted tasks and announces done) -/\n')
     srows = []
     for (c, a, b, _), h in zip(_handler_rows(t, 'tasks.SubmissionTask._main', set()), t.handlers):
         calls = _calls_in(h.body)
         srows.append((c, a, b, 'announce_done' in calls and '_wait_for_all_submitted_futures_to_complete' in calls))
     out.append('def submissionHandlers : List (String × Bool × Bool × Bool) := %s\n' % rows(srows))
+    # Task._wait_until_all_complete: which exceptions of the awaited futures the waiting loop ignores
+    wl = module('tasks').cls('Task')
+    chain = [tr for tr in ast.walk(wl) if isinstance(tr, ast.Try) and tr.handlers
+             and any(isinstance(n, ast.Call) and isinstance(n.func, ast.Attribute) and n.func.attr == 'result'
+                     and isinstance(n.func.value, ast.Name) and n.func.value.id == 'future' and not n.args
+                     for st in tr.body for n in ast.walk(st))]
+    wrows = _handler_rows(chain[0], 'tasks.Task: the loop waiting for other tasks', set()) if chain else []
+    out.append('/-- the loop in `Task` that waits for other tasks (`future.result()`): (class, -, re-raises, -) -/\n')
+    out.append('def waitLoopHandlers : List (String × Bool × Bool × Bool) := %s\n' % rows(wrows))
+    # the failure path of SubmissionTask._main: record, wait for the submitted futures, announce — in that order
+    order = []
+    for h in t_sub.handlers:
+        for st in h.body:
+            for n in ast.walk(st):
+                if isinstance(n, ast.Call) and isinstance(n.func, ast.Attribute) and n.func.attr in (
+                        '_log_and_set_exception', '_wait_for_all_submitted_futures_to_complete', 'announce_done'):
+                    order.append((n.lineno, n.col_offset, n.func.attr))
+    out.append('def submissionFailurePath : List String := %s\n' % lean_strlist([a for _, _, a in sorted(order)]))
     out.append('end S3V.Gen\n')
     return ''.join(out)
 
